@@ -68,6 +68,13 @@ def loopWith {S G D : Type} (passesStream : Bool) (P : Prng S G D) (n : Nat) (a 
     List D × SeedArg S G × G :=
   if passesStream then loop P n a glob else loopS P n a glob
 
+/-- `execute_simulation(qtomography, setting, seed_or_generator)`: a missing seed is replaced by the setting's `seed_data`
+(an integer), then the repetition loop runs -/
+def execSim {S G D : Type} (P : Prng S G D) (seedData : S) (nRep : Nat) (a : Option (SeedArg S G)) (glob : G) :
+    List D × G :=
+  let r := loop P nRep (a.getD (.int seedData)) glob
+  (r.1, r.2.2)
+
 /-- state of a generator after `k` repetitions drew from it -/
 def advance {S G D : Type} (P : Prng S G D) : Nat → G → G
   | 0, g => g
